@@ -119,6 +119,14 @@ Definition c07_delta_ok (nodes : nmap) (sched : list id) (x : delta) : bool :=
                         | Some c => c07_nd_ok c nd
                         | None => false
                         end) (nds x).
+(* C14: the sender's reset decision, read off a computed node delta: it starts from 0 exactly when
+   the peer's advertised watermark and max version are both below the sender's watermark, and
+   otherwise from the peer's advertised max version *)
+Definition c14_from_ok (dg : digest) (sender : copy) (nd : ndelta) : bool :=
+  let '(dgc, dmax) := match dg_get (d_id nd) dg with Some g => (g_gc g, g_max g) | None => (0, 0) end in
+  d_from nd =? (if (dgc <? c_gc sender) && (dmax <? c_gc sender) then 0 else dmax).
+Definition c14_delta_ok (dg : digest) (nodes : nmap) (x : delta) : bool :=
+  forallb (fun nd => match nm_get (d_id nd) nodes with Some c => c14_from_ok dg c nd | None => true end) (nds x).
 Definition digest_excludes (sched : list id) (dg : digest) : bool :=
   forallb (fun e => negb (in_ids (fst e) sched)) dg.
 
